@@ -202,9 +202,9 @@ func c18Blocks() []*big.Int {
 
 // C18 explores every script of the entropy source up to the depth bound.
 func C18(r *ev.Report) {
-	depth := 3
+	depth := 4
 	if ev.Thorough() {
-		depth = 4
+		depth = 7
 	}
 
 	blocks := c18Blocks()
